@@ -3,5 +3,5 @@ CONSTANTS
   Modes = {"ltr"}
   Fuel = 3000
 INVARIANTS ReplEqBatch SessionPrefix FormOutputsAlign DiagCount WellOrdered CallsDefined RNoStuck Bounded
-\* PROPERTIES RejectKeepsSession AcceptIsSilent
+PROPERTIES RejectKeepsSession AcceptIsSilent
 CHECK_DEADLOCK FALSE
